@@ -76,6 +76,11 @@ def seeded(uni: qgen.Universe) -> List[Tuple[str, set]]:
         # value is not visible there); what it declares at class level (miniAOD: the token) is still declared once
         (f'ds.Select(lambda e: e.{a}("b1")).Select(lambda ms: (Range(0, 2).Select(lambda i: ms.Count()), ms.Count()))', {"range", "revisit"}),
         (f'ds.Select(lambda e: e.{a}("b1")).Select(lambda ms: (Range(0, 2).Select(lambda i: ms.Select(lambda m: m.pt()).Sum()), ms.Select(lambda m: m.eta())))', {"range", "revisit"}),
+        # strings with characters that need escaping (or that look like comment / line boundaries) as bank, tree and label: the
+        # generated source is still well-formed
+        (f'ds.Select(lambda e: e.{a}(\'Calib"Jets\').Count()).AsROOTTTree("f.root", \'my"tree\', ["n"])', {"odd_strings"}),
+        (f'ds.Select(lambda e: e.{a}("back\\\\slash//x").Select(lambda j: j.pt())).AsROOTTTree("f.root", "t\\\\", ["a\\"b"])', {"odd_strings"}),
+        (f'ds.Select(lambda e: e.{a}("line\\u2028sep").Count())', {"odd_strings"}),
         # column labels that are not C++ identifiers: the class member that stores the column still has a C++ name
         (f'ds.Select(lambda e: (e.{a}("b1").Count(), e.{b}("b1").Select(lambda t: t.pt()))).AsROOTTTree("f.root", "t", ["n-jets", "trk.pt"])', {"odd_labels"}),
         (f'ds.Select(lambda e: e.{a}("b1").Count()).AsROOTTTree("f.root", "my tree", ["n jets"])', {"odd_labels"}),
